@@ -67,7 +67,29 @@ func genScenario(r *hx.Rand, big bool) scenario {
 		ls = append(ls, "sever")
 		return scenario{ls}
 	}
-	ls = append(ls, fmt.Sprintf("calls n=%d", n))
+	var ctxCallers []int
+	if r.Intn(5) == 0 {
+		for i := 0; i < n; i++ {
+			if r.Intn(2) == 0 {
+				ctxCallers = append(ctxCallers, i)
+			}
+		}
+	}
+	if len(ctxCallers) > 0 {
+		var cs []string
+		for _, c := range ctxCallers {
+			cs = append(cs, fmt.Sprint(c))
+		}
+		ls = append(ls, fmt.Sprintf("calls n=%d ctx=%s", n, strings.Join(cs, ",")))
+		// some of them give up before anything is answered; their replies still arrive afterwards
+		for _, c := range ctxCallers {
+			if r.Intn(3) != 0 {
+				ls = append(ls, fmt.Sprintf("cancel c=%d", c))
+			}
+		}
+	} else {
+		ls = append(ls, fmt.Sprintf("calls n=%d", n))
+	}
 	perm := make([]int, n)
 	for i := range perm {
 		perm[i] = i
@@ -203,6 +225,8 @@ func runScenario(sc scenario, rep *hx.Report) outcome {
 	var wg sync.WaitGroup
 	dead := false // reader of the client is dead (fatal frame)
 	lateIdx := -1
+	cancels := map[int]context.CancelFunc{}
+	cancelled := map[int]bool{}
 	readSize := 0
 	partialCaller := -1
 	var lateRelease, lateReached chan struct{}
@@ -221,6 +245,14 @@ func runScenario(sc scenario, rep *hx.Report) outcome {
 			for i := range results {
 				results[i] = "stuck"
 			}
+			cancels = map[int]context.CancelFunc{}
+			ctxOf := map[int]context.Context{}
+			if cl := kv(ws, "ctx"); cl != "" {
+				for _, x := range strings.Split(cl, ",") {
+					ctx, cancel := context.WithCancel(context.Background())
+					ctxOf[atoi(x)], cancels[atoi(x)] = ctx, cancel
+				}
+			}
 			readSize = 0
 			if kv(ws, "kind") == "read" {
 				readSize = atoi(kv(ws, "size"))
@@ -232,7 +264,11 @@ func runScenario(sc scenario, rep *hx.Report) outcome {
 					typs[i] = "4"
 				}
 			}
-			out.model = append(out.model, "init typ="+strings.Join(typs, ","))
+			initLine := "init typ=" + strings.Join(typs, ",")
+			if cl := kv(ws, "ctx"); cl != "" {
+				initLine += " ctx=" + cl
+			}
+			out.model = append(out.model, initLine)
 			for i := 0; i < n; i++ {
 				wg.Add(1)
 				go func(i int) {
@@ -247,7 +283,11 @@ func runScenario(sc scenario, rep *hx.Report) outcome {
 							msg = string(buf[:k])
 						}
 					} else {
-						msg, err = p.Client.Hello(context.Background(), fmt.Sprintf("tag%d", i))
+						ctx := context.Background()
+						if c, ok := ctxOf[i]; ok {
+							ctx = c
+						}
+						msg, err = p.Client.Hello(ctx, fmt.Sprintf("tag%d", i))
 					}
 					mu.Lock()
 					defer mu.Unlock()
@@ -313,7 +353,7 @@ func runScenario(sc scenario, rep *hx.Report) outcome {
 				switch ws[1] {
 				case "ok":
 					frame = snix.ReplyFrame(id, helloTyp, 0, snix.StrBody(good))
-					if _, seen := firstGood[c]; !seen {
+					if _, seen := firstGood[c]; !seen && !cancelled[c] {
 						firstGood[c] = good
 						answeredBeforeFatal[c] = true
 					}
@@ -428,6 +468,24 @@ func runScenario(sc scenario, rep *hx.Report) outcome {
 			}
 			p.Send(snix.ReplyFrame(sd.ID, 0, 0, nil)) // the endpoint acknowledges the shutdown; nothing else was answered
 			time.Sleep(30 * time.Millisecond)
+		case "cancel":
+			c := atoi(kv(ws, "c"))
+			if cancel, ok := cancels[c]; ok {
+				cancel()
+				cancelled[c] = true
+				// the caller must come back on its own, whatever the peer does
+				deadline := time.Now().Add(5 * time.Second)
+				for {
+					mu.Lock()
+					r := results[c]
+					mu.Unlock()
+					if r != "stuck" || time.Now().After(deadline) {
+						break
+					}
+					time.Sleep(time.Millisecond)
+				}
+				out.model = append(out.model, fmt.Sprintf("ev giveup %d", c))
+			}
 		case "partial":
 			if dead || sendfail || out.modelFree {
 				continue
@@ -495,7 +553,15 @@ func runScenario(sc scenario, rep *hx.Report) outcome {
 	}
 
 	// direct oracle
+	for c := range cancelled {
+		if c < len(out.results) && out.results[c] != "err:ctx" {
+			rep.Fail("cancelled-call-did-not-return-its-context-error", fmt.Sprintf("caller %d, whose context was cancelled before any reply to it was sent, ended with %s", c, out.results[c]), sc.lines)
+		}
+	}
 	for c, r := range out.results {
+		if cancelled[c] {
+			continue
+		}
 		if want, answered := firstGood[c]; answered && !strings.HasPrefix(want, "\x00") && !sendfail && answeredBeforeFatal[c] && !strings.HasPrefix(r, "ok:") && r != "stuck" {
 			rep.Fail("answered-call-not-completed", fmt.Sprintf("caller %d got %s although the peer sent a well-formed reply %q for its id and type before any fatal frame", c, r, want), sc.lines)
 		}
@@ -524,6 +590,8 @@ func canonModel(line string) []string {
 			out = append(out, "ok:"+strings.TrimSuffix(strings.TrimPrefix(r, "ok:b:"), "+e:0:-"))
 		case r == "err:3" || r == "err:4":
 			out = append(out, "err:eof")
+		case r == "err:6":
+			out = append(out, "err:ctx")
 		case r == "ghost":
 			out = append(out, "ok:-")
 		case strings.HasPrefix(r, "err:"):
